@@ -566,3 +566,39 @@ def many_parked(prefix, counts=(7, 8, 9, 10, 12)):
         out.append(scenario("%s-consparked-end-%d" % (prefix, n), "bcast", True, 16, "busy", setup, [prog2],
                             [S("drop", h) for h in hs], spins=[0, 0]))
     return out
+
+
+def deep_shared(prefix, family="bcast", cap=4, nvals=9):
+    """a ring of 4 with two or three consumers of one stream and a producer that laps it twice: the
+    schedules that need a lost cursor race followed by a wrap-around"""
+    out = []
+    for k, ncons in enumerate((2, 3)):
+        t = Topo(family, 1, [ncons])
+        threads = [sends("tx", 101, nvals, retry=True, drop=True)] + [[S("brecv_all", h)] for h in t.streams[0]]
+        out.append(scenario("%s-%s-deep-c%d-%d" % (prefix, family, cap, k), family, False, cap, "busy", t.setup, threads,
+                            final_phase(t, {"tx"})))
+    return out
+
+
+def with_epoch_pending(scns, family_of=None):
+    """variants of scenarios whose setup first retires more than 20 objects, so that the epoch-change
+    signal is pending when the real program starts (every handle's first call takes the slow path)"""
+    out = []
+    for s in scns:
+        pre = []
+        if s["flavour"] == "bcast":
+            for i in range(6):
+                pre += [S("add_stream", "rx", new="e%d" % i), S("drop", "e%d" % i)]
+        else:
+            for i in range(22):
+                pre += [S("clone", "rx", new="e%d" % i), S("drop", "e%d" % i)]
+        s2 = dict(s)
+        s2["name"] = s["name"] + "-ep"
+        ph = [list(p) for p in s["phases"]]
+        if len(ph) >= 2 and len(ph[0]) == 1 and len(ph[1]) > 1:
+            ph[0] = [pre + list(ph[0][0])]
+        else:
+            ph = [[pre]] + ph
+        s2["phases"] = ph
+        out.append(s2)
+    return out
